@@ -48,7 +48,7 @@ func vpCollect(r *vpReader, cap int) []vpItem {
 // class "contains a line break" is excluded it has no LF/CR.
 func vpName(tag string, n int) string {
 	s := vpStr(tag, n)
-	if vpCase("exclLineBreak") == 1 {
+	if vpCase("exclLineBreak") == 1 || vpNoLineBreakContent {
 		for i := 0; i < len(s); i++ {
 			vpAssume(s[i] != '\n' && s[i] != '\r')
 		}
